@@ -3,6 +3,19 @@ answer what the driver writes, virtual-time event loop.  All of this is
 harness environment (used identically in symbolic and concrete mode)."""
 import asyncio
 import logging
+import sys
+import types
+
+# third-party packages that are not installed are needed only for import
+for _name in ("usb", "usb.core", "usb.util", "hid", "pymodbus.client.sync"):
+    if _name not in sys.modules:
+        try:
+            __import__(_name)
+        except Exception:
+            _m = types.ModuleType(_name)
+            _m.ModbusSerialClient = _m.ModbusTcpClient = object
+            sys.modules[_name] = _m
+
 
 from symx import vloop
 from symx.core import SymInt
